@@ -6,6 +6,7 @@ From Coq Require Import List NArith.
 From Goit Require Import Bytes Regex GoRegex Reflog Repo RegexFacts ReflogFacts.
 From Goit Require Import Obj Tree Index Commit World ExactFacts.
 From Goit Require Import Bridge.
+From Goit Require JournalReachFacts.
 From Goit Require Import Inv Reflog BranchFacts SnapshotFacts RestoreFacts GateFacts ResetFacts.
 Import ListNotations.
 
@@ -171,3 +172,49 @@ Print Assumptions C08_reset_mixed_total.
 Print Assumptions C08_reset_hard_total.
 Print Assumptions C08_reset_refused_on_every_reachable_repository.
 Print Assumptions C08_journal_ids_are_stored_commits.
+
+(* the three totals without the hypothesis that the current branch has a tip: a journal record that
+   carries an id exists only in a repository whose current branch has one (an invariant of every
+   history, JournalReachFacts.reachable_record_tip) *)
+Theorem C08_reset_soft_total_no_tip_hypothesis : forall e w c n hl rs r tid,
+  Reachable w -> w_coll w = false -> SmallStore (w_objs w) -> ctx_of w = Some c ->
+  (n <= 9223372036854775807)%N -> w_hlog w = Some hl -> parse_reflog hl = Some rs ->
+  get_record rs (N.to_nat n) = Some r -> r_id r = Some tid -> forall mixed,
+  exists prev, am_get (w_refs w) (w_head w) = Some prev /\
+  let a := head_at n in let tr := reset_head_trace e c w prev tid a in let w' := apply_effects tr w in
+  step (ACmd e (CReset true mixed false [a])) w = (w', OOk [], tr) /\
+  reset_common_post w tid w' /\ w_index w' = w_index w /\ same_wt w w'.
+Proof. exact JournalReachFacts.reset_soft_total'. Qed.
+
+Theorem C08_reset_mixed_total_no_tip_hypothesis : forall e w c n hl rs r tid,
+  Reachable w -> w_coll w = false -> SmallStore (w_objs w) -> ctx_of w = Some c ->
+  (n <= 9223372036854775807)%N -> w_hlog w = Some hl -> parse_reflog hl = Some rs ->
+  get_record rs (N.to_nat n) = Some r -> r_id r = Some tid ->
+  exists prev es, am_get (w_refs w) (w_head w) = Some prev /\ snapshot (w_objs w) tid = Some es /\
+    let a := head_at n in let tr := reset_head_trace e c w prev tid a ++ [ESetIndex es] in let w' := apply_effects tr w in
+    step (ACmd e (CReset false true false [a])) w = (w', OOk [], tr) /\
+    reset_common_post w tid w' /\ idx_of w' = es /\ same_wt w w'.
+Proof. exact JournalReachFacts.reset_mixed_total'. Qed.
+
+Theorem C08_reset_hard_total_no_tip_hypothesis : forall e w c n hl rs r tid,
+  Reachable w -> w_coll w = false -> SmallStore (w_objs w) -> ctx_of w = Some c ->
+  (n <= 9223372036854775807)%N -> w_hlog w = Some hl -> parse_reflog hl = Some rs ->
+  get_record rs (N.to_nat n) = Some r -> r_id r = Some tid -> forall es,
+  snapshot (w_objs w) tid = Some es ->
+  (forall q, In q (IndexFacts.paths es) -> restorable w q) ->
+  (forall q1 q2, In q1 (IndexFacts.paths es) -> In q2 (IndexFacts.paths es) -> ~ In q1 (ancestors q2)) ->
+  forall mixed, let a := head_at n in
+  exists tr, let w' := apply_effects tr w in
+    step (ACmd e (CReset false mixed true [a])) w = (w', OOk [], tr) /\
+    reset_hard_result w tid es w' /\ reset_hard_post w tid es w' /\
+    Forall (fun ef => match ef with
+                      | ESetRef nm id => nm = w_head w /\ id = tid
+                      | EAppendHlog _ | EAppendBlog _ _ | EMkdirAll _ => True
+                      | ESetIndex i => i = es
+                      | EWriteFile q _ => In q (IndexFacts.paths es)
+                      | _ => False
+                      end) tr.
+Proof. exact JournalReachFacts.reset_hard_total'. Qed.
+Print Assumptions C08_reset_soft_total_no_tip_hypothesis.
+Print Assumptions C08_reset_mixed_total_no_tip_hypothesis.
+Print Assumptions C08_reset_hard_total_no_tip_hypothesis.
